@@ -587,7 +587,176 @@ async fn run_churn(addr: SocketAddr, certs: Certs, id: u64, seed: u64, timeout_m
     Ok((calls, l.received, l.sent))
 }
 
-pub fn run(rep: &mut StageReport, tier: &str, seed: u64) {
+/// child-process server (this binary in `--serve` mode, i.e. `Server::try_from(args)?.listen()` like main.rs)
+struct ChildServer {
+    child: std::process::Child,
+    addr: SocketAddr,
+}
+
+impl ChildServer {
+    async fn start(exe: &str, certs: &Certs, bind: &str, tag: &str) -> std::result::Result<ChildServer, String> {
+        let addr_file = scratch_dir().join(format!("restart-addr-{}-{}", std::process::id(), tag));
+        let _ = std::fs::remove_file(&addr_file);
+        let child = std::process::Command::new(exe)
+            .args(["--serve", "--certs", &certs.dir.to_string_lossy(), "--addr-file", &addr_file.to_string_lossy(), "--bind", bind])
+            .stdout(std::process::Stdio::null())
+            .stderr(std::process::Stdio::null())
+            .spawn()
+            .map_err(|e| format!("spawn server: {e}"))?;
+        let t0 = Instant::now();
+        loop {
+            if let Ok(s) = std::fs::read_to_string(&addr_file) {
+                if let Ok(a) = s.trim().parse::<SocketAddr>() {
+                    let _ = std::fs::remove_file(&addr_file);
+                    return Ok(ChildServer { child, addr: a });
+                }
+            }
+            if t0.elapsed() > Duration::from_secs(20) {
+                let mut c = child;
+                let _ = c.kill();
+                let _ = c.wait();
+                return Err("server child did not report its address within 20 s".into());
+            }
+            tokio::time::sleep(Duration::from_millis(20)).await;
+        }
+    }
+    /// SIGINT (graceful shutdown), wait for the exit
+    async fn shutdown(mut self) -> bool {
+        unsafe {
+            libc::kill(self.child.id() as i32, libc::SIGINT);
+        }
+        let t0 = Instant::now();
+        while t0.elapsed() < Duration::from_secs(30) {
+            if let Ok(Some(_)) = self.child.try_wait() {
+                return true;
+            }
+            tokio::time::sleep(Duration::from_millis(20)).await;
+        }
+        let _ = self.child.kill();
+        let _ = self.child.wait();
+        false
+    }
+    fn kill(mut self) {
+        let _ = self.child.kill();
+        let _ = self.child.wait();
+    }
+}
+
+/// The server is restarted (graceful shutdown, new process on the same address) while the library Replier is busy in
+/// its handler for requestor X. Afterwards new requestors call through the new server: whatever the replier does with
+/// the reply it could not deliver, every call that returns Ok must return the reply to *its* request. (The new server
+/// numbers its requestors from scratch, and every requestor numbers its requests from 0, so stale routing data of the
+/// old server's time would match the wrong call.)
+async fn run_server_restart(exe: &str, certs: &Certs, id: u64, kill_hard: bool) -> std::result::Result<Vec<Call>, String> {
+    let topic = unique_topic("c04s", id);
+    let s1 = ChildServer::start(exe, certs, "127.0.0.1:0", &format!("{}a", id)).await?;
+    let addr = s1.addr;
+    let bo = selium::keep_alive::BackoffStrategy::constant().with_max_attempts(40).with_step(Duration::from_millis(150));
+    let crep = lib_client(&addr.to_string(), certs, Some(bo.clone())).await.map_err(|e| format!("connect: {e}"))?;
+    let mut replier = crep
+        .replier(&topic)
+        .with_request_decoder(StringCodec)
+        .with_reply_encoder(StringCodec)
+        .with_handler(|req: String| async move {
+            if req.starts_with("slow:") {
+                tokio::time::sleep(Duration::from_millis(1200)).await;
+            }
+            Ok::<String, std::convert::Infallible>(format!("re:{}", req))
+        })
+        .open()
+        .await
+        .map_err(|e| format!("open replier: {e}"))?;
+    let listen = tokio::spawn(async move { replier.listen().await });
+    let t0 = Instant::now();
+    let mut calls = vec![];
+    let cx = lib_client(&addr.to_string(), certs, Some(bo.clone())).await.map_err(|e| format!("connect: {e}"))?;
+    let mut x = cx.requestor(&topic).with_request_encoder(StringCodec).with_reply_decoder(StringCodec).with_request_timeout(3000u64).map_err(|e| e.to_string())?.open().await.map_err(|e| format!("open requestor: {e}"))?;
+    // X's first calls: establishes the replier and advances nothing but X's own counter
+    let mut est = false;
+    for n in 0..40 {
+        if let Ok(v) = x.request(format!("sentinel-{}", n)).await {
+            if v == format!("re:sentinel-{}", n) {
+                est = true;
+                break;
+            }
+            listen.abort();
+            s1.kill();
+            return Err(format!("VIOLATION wrong-reply: sentinel got {:?}", v));
+        }
+        tokio::time::sleep(Duration::from_millis(50)).await;
+    }
+    if !est {
+        listen.abort();
+        s1.kill();
+        return Err("precondition not reached: library replier never answered a sentinel".into());
+    }
+    // a fresh requestor X2 (request ids from 0) asks a slow question; the server goes away while the handler runs
+    let cx2 = lib_client(&addr.to_string(), certs, Some(bo.clone())).await.map_err(|e| format!("connect: {e}"))?;
+    let mut x2 = cx2.requestor(&topic).with_request_encoder(StringCodec).with_reply_decoder(StringCodec).with_request_timeout(3000u64).map_err(|e| e.to_string())?.open().await.map_err(|e| format!("open requestor: {e}"))?;
+    let slow = tokio::spawn(async move {
+        let start = t0.elapsed().as_millis();
+        let r = tokio::time::timeout(Duration::from_secs(30), x2.request("slow:from-X2".to_string())).await;
+        (start, t0.elapsed().as_millis(), r.map(|x| x.map_err(|e| (is_timeout(&e), e.to_string()))))
+    });
+    tokio::time::sleep(Duration::from_millis(300)).await;
+    if kill_hard {
+        s1.kill();
+    } else if !s1.shutdown().await {
+        listen.abort();
+        return Err("the first server did not exit within 30 s of SIGINT".into());
+    }
+    let s2 = match ChildServer::start(exe, certs, &addr.to_string(), &format!("{}b", id)).await {
+        Ok(s) => s,
+        Err(e) => {
+            listen.abort();
+            return Err(format!("second server on the same address: {}", e));
+        }
+    };
+    // new requestors on the new server, each calling from request id 0 on; several, so that one of them gets the routing
+    // id the old server had given X2
+    let mut tasks = vec![];
+    for y in 0..3 {
+        let (certs, topic) = (certs.clone(), topic.clone());
+        tasks.push(tokio::spawn(async move {
+            let mut out = vec![];
+            let cy = match lib_client(&addr.to_string(), &certs, None).await {
+                Ok(c) => c,
+                Err(_) => return out,
+            };
+            let Ok(b) = cy.requestor(&topic).with_request_encoder(StringCodec).with_reply_decoder(StringCodec).with_request_timeout(2500u64) else { return out };
+            let Ok(mut rq) = b.open().await else { return out };
+            for k in 0..4 {
+                let p = format!("from-Y{}#{}", y, k);
+                let start = t0.elapsed().as_millis();
+                let r = tokio::time::timeout(Duration::from_secs(30), rq.request(p.clone())).await;
+                let end = t0.elapsed().as_millis();
+                let (result, timed_out) = match r {
+                    Ok(Ok(v)) => (Ok(v), false),
+                    Ok(Err(e)) => (Err(e.to_string()), is_timeout(&e)),
+                    Err(_) => (Err("HUNG: request() did not return within 30 s".into()), false),
+                };
+                out.push(Call { id: p, mode: Mode::Now, requestor: format!("Y{}", y), start_ms: start, end_ms: end, result, timed_out });
+            }
+            out
+        }));
+    }
+    for t in tasks {
+        calls.extend(t.await.map_err(|e| format!("harness task: {e}"))?);
+    }
+    if let Ok((start, end, r)) = slow.await {
+        let (result, timed_out) = match r {
+            Ok(Ok(v)) => (Ok(v), false),
+            Ok(Err((to, e))) => (Err(e), to),
+            Err(_) => (Err("HUNG: request() did not return within 30 s".into()), false),
+        };
+        calls.push(Call { id: "slow:from-X2".into(), mode: Mode::Now, requestor: "X2".into(), start_ms: start, end_ms: end, result, timed_out });
+    }
+    listen.abort();
+    s2.kill();
+    Ok(calls)
+}
+
+pub fn run(rep: &mut StageReport, tier: &str, seed: u64, exe: &str) {
     let thorough = tier == "thorough";
     let rt = runtime(8);
     let certs = match gen_certs() {
@@ -622,6 +791,8 @@ pub fn run(rep: &mut StageReport, tier: &str, seed: u64) {
     let mut lib_replier_inconclusive: Option<String> = None;
     let mut clones_result: Option<(u64, Vec<String>, Vec<String>)> = None;
     let mut clones_inconclusive: Option<String> = None;
+    let mut restart_calls: Vec<(u64, Vec<Call>)> = vec![];
+    let mut restart_notes: Vec<String> = vec![];
     let results = rt.block_on(async {
         let server = match start_server(&certs) {
             Ok(s) => s,
@@ -677,6 +848,14 @@ pub fn run(rep: &mut StageReport, tier: &str, seed: u64) {
                 Ok(x) => x,
                 Err(_) => Err("watchdog: churn scenario did not finish within 600 s".into()),
             }));
+        }
+        for g in 0..(if thorough { 6usize } else { 2 }) {
+            let r = tokio::time::timeout(Duration::from_secs(200), run_server_restart(exe, &certs, 4000 + g as u64, g % 2 == 1)).await;
+            match r {
+                Ok(Ok(calls)) => restart_calls.push((4000 + g as u64, calls)),
+                Ok(Err(e)) => restart_notes.push(e),
+                Err(_) => restart_notes.push("watchdog: server-restart scenario did not finish within 200 s".into()),
+            }
         }
         for g in 0..n_gen_scenarios {
             let tmo = if g % 2 == 0 { 300 } else { 500 };
@@ -784,6 +963,45 @@ pub fn run(rep: &mut StageReport, tier: &str, seed: u64) {
         if let Some(sc) = sc {
             rep.sample(json!({"scenario": {"connections": sc.n_connections, "streams_per_connection": sc.streams_per_connection, "clones_per_stream": sc.clones_per_stream, "timeout_ms": sc.timeout_ms, "compression": sc.compression}, "history_excerpt": sample_hist}));
         }
+    }
+    // server restarts: the only thing judged is that an Ok carries the caller's own reply (failed calls are C12's)
+    for note in restart_notes {
+        if let Some(v) = note.strip_prefix("VIOLATION wrong-reply: ") {
+            rep.violation(Violation { signature: "C04/reqrep-client/wrong-reply/server-restart".into(), detail: v.to_string(), replay: String::new() });
+        } else {
+            rep.inconclusive(&note);
+        }
+    }
+    for (sid, calls) in restart_calls {
+        let mut oks = 0u64;
+        for c in &calls {
+            rep.evaluations += 1;
+            match &c.result {
+                Ok(v) if *v == format!("re:{}", c.id) => {
+                    oks += 1;
+                    rep.distinct.insert(crate::common::mix(sid, crate::common::fnv(c.id.as_bytes())));
+                }
+                Ok(v) => {
+                    let detail = format!(
+                        "after the server was restarted on the same address while the library replier was busy, request {:?} of {} returned Ok with {:?}; history: {:?}",
+                        c.id,
+                        c.requestor,
+                        v,
+                        calls.iter().map(|c| format!("{}:{:?}", c.id, c.result)).collect::<Vec<_>>()
+                    );
+                    let replay = write_replay("C04", "wrong-reply-server-restart", sid, json!({"property": "C04", "detail": detail}));
+                    rep.violation(Violation { signature: "C04/reqrep-client/wrong-reply/server-restart".into(), detail, replay });
+                }
+                Err(e) if e.starts_with("HUNG") => {
+                    rep.violation(Violation { signature: "C04/reqrep-client/request-hung/server-restart".into(), detail: format!("request {:?}: {}", c.id, e), replay: String::new() });
+                }
+                Err(_) => {
+                    rep.count("calls_across_server_restart/failed(counted)", 1);
+                    rep.distinct.insert(crate::common::mix(sid, crate::common::fnv(c.id.as_bytes())));
+                }
+            }
+        }
+        rep.count("calls_across_server_restart/own_reply", oks);
     }
     match lib_replier_inconclusive {
         Some(e) if e.starts_with("VIOLATION wrong-reply: ") => rep.violation(Violation { signature: "C04/reqrep-client/wrong-reply/library-replier".into(), detail: e, replay: String::new() }),
